@@ -88,6 +88,11 @@ struct BundleSpec {
     not_before: Bound,
     not_after: Bound,
     sig: Sig,
+    /// `Some(k)`: reuse the signed pre-key (key and lifetime) of the k-th bundle built earlier
+    /// for the same member instead of a fresh one – a bundle that looks "already known" to the
+    /// registry but may carry another (corrupted, foreign) signature.
+    #[serde(default)]
+    reuse_prekey: Option<u8>,
 }
 
 #[derive(Clone, Debug)]
@@ -131,6 +136,8 @@ struct Keys {
     seed: u64,
     rng: Rng,
     counter: u64,
+    /// (member, pre-key, not_before, not_after) of every bundle built so far in this case.
+    prekeys: Vec<(usize, PreKey, u64, u64)>,
 }
 
 impl Keys {
@@ -139,6 +146,7 @@ impl Keys {
             seed,
             rng: Rng::from_seed(seed32(seed, 0xC38)),
             counter: 0,
+            prekeys: Vec::new(),
         }
     }
 
@@ -160,8 +168,18 @@ fn build(spec: &BundleSpec, base: u64, keys: &mut Keys) -> Result<Record, String
     let member = spec.member as usize % MEMBERS;
     let identity_secret = keys.identity(member);
     let identity_key = public(&identity_secret)?;
-    let (not_before, not_after) = (spec.not_before.at(base), spec.not_after.at(base));
-    let prekey = PreKey::new(public(&keys.fresh_secret())?, Lifetime::from_range(not_before, not_after));
+    let (mut not_before, mut not_after) = (spec.not_before.at(base), spec.not_after.at(base));
+    let mut prekey = PreKey::new(public(&keys.fresh_secret())?, Lifetime::from_range(not_before, not_after));
+    if let Some(k) = spec.reuse_prekey {
+        let earlier: Vec<&(usize, PreKey, u64, u64)> = keys.prekeys.iter().filter(|p| p.0 == member).collect();
+        if !earlier.is_empty() {
+            let (_, pk, nb, na) = earlier[k as usize % earlier.len()];
+            prekey = *pk;
+            not_before = *nb;
+            not_after = *na;
+        }
+    }
+    keys.prekeys.push((member, prekey, not_before, not_after));
     let sign = |bytes: &[u8], secret: &SecretKey, rng: &Rng| xeddsa_sign(bytes, secret, rng).map_err(|e| format!("harness: sign: {e}"));
     let signature = match spec.sig {
         Sig::Valid => sign(prekey.as_bytes(), &identity_secret, &keys.rng)?,
@@ -437,6 +455,7 @@ fn check_persisted(case: &PersistedCase) -> CaseResult {
             not_before: Bound::Rel(-3600),
             not_after: Bound::Rel(*validity as i64),
             sig: Sig::Valid,
+            reuse_prekey: None,
         };
         let record = build(&spec, then, &mut keys)?;
         // An honest run only persisted what it had accepted: valid at `then`.
@@ -494,6 +513,7 @@ fn check_sleep(case: &SleepCase) -> CaseResult {
             not_before: Bound::Rel(-3600),
             not_after: Bound::Rel(if *short { 2 } else { 3600 }),
             sig: Sig::Valid,
+            reuse_prekey: None,
         };
         let record = build(&spec, base, &mut keys)?;
         let before = registered.len();
@@ -570,12 +590,26 @@ fn bundle_spec() -> impl Strategy<Value = BundleSpec> {
             not_before,
             not_after,
             sig,
+            reuse_prekey: None,
         },
     )
 }
 
 fn accept_case() -> impl Strategy<Value = AcceptCase> {
-    (any::<u64>(), prop::collection::vec(bundle_spec(), 1..=10)).prop_map(|(seed, bundles)| AcceptCase { seed, bundles })
+    (
+        any::<u64>(),
+        prop::collection::vec((bundle_spec(), prop::option::weighted(0.3, any::<u8>())), 1..=10),
+    )
+        .prop_map(|(seed, bundles)| AcceptCase {
+            seed,
+            bundles: bundles
+                .into_iter()
+                .map(|(mut b, reuse)| {
+                    b.reuse_prekey = reuse;
+                    b
+                })
+                .collect(),
+        })
 }
 
 fn persisted_case() -> impl Strategy<Value = PersistedCase> {
